@@ -1,8 +1,9 @@
 """Fail-closed translators: Coq data regenerated from /repo's current source on every run."""
-from harness.tables import color_formats, consts, reorder_rules
+from harness.tables import color_formats, config_paths, consts, reorder_rules
 
 ALL_TABLES = [
     ("Consts", consts.generate),
     ("ReorderRules", reorder_rules.generate),
     ("ColorFormats", color_formats.generate),
+    ("ConfigPaths", config_paths.generate),
 ]
